@@ -48,6 +48,7 @@ type Descriptor struct {
 	OpOnly         bool     `json:"op_only"`       // scheduling must stay operation-granular
 	LockRewrites   int      `json:"lock_rewrites"` // x.Lock()/x.RLock() statements rewritten to TryLock loops
 	ClockNote      string   `json:"clock_note,omitempty"`
+	OwnLockTypes   []string `json:"own_lock_types,omitempty"`
 	OwnLockMethods []string `json:"own_lock_methods,omitempty"` // Lock/RLock/TryLock methods declared by the module itself
 	ClockReads     int      `json:"clock_reads"`                // time.Now / Since / Until / Sleep expressions redirected to the simulated clock
 	Timers         []string `json:"timers"`                     // time.After / AfterFunc / NewTimer / NewTicker / Tick: left on the real clock (their goroutines are foreign to the simulator)
@@ -189,6 +190,9 @@ func RunOpts(srcDir, dstDir string, rewrite bool) (*Descriptor, error) {
 					// the module has lock methods of its own: only receivers that are exactly a sync.Mutex / RWMutex are
 					// then acquired through TryLock (a wrapper's Lock may do more than lock)
 					d.OwnLockMethods = append(d.OwnLockMethods, fmt.Sprintf("%s:%d %s", rel, fset.Position(fd.Pos()).Line, fd.Name.Name))
+					if len(fd.Recv.List) > 0 {
+						d.OwnLockTypes = append(d.OwnLockTypes, recvTypeName(fd.Recv.List[0].Type))
+					}
 				}
 			}
 			gd, ok := decl.(*ast.GenDecl)
@@ -484,7 +488,7 @@ func RunOpts(srcDir, dstDir string, rewrite bool) (*Descriptor, error) {
 	var hb bytes.Buffer
 	hb.WriteString("// Code generated by the verification instrumenter. DO NOT EDIT.\n\n")
 	hb.WriteString("// Package zz_simhook carries the scheduler hook of the deterministic simulation.\n")
-	hb.WriteString("package zz_simhook\n\nimport (\n\t\"sync\"\n\t\"time\"\n\t\"unsafe\"\n)\n\n")
+	hb.WriteString("package zz_simhook\n\nimport (\n\t\"reflect\"\n\t\"sync\"\n\t\"time\"\n\t\"unsafe\"\n)\n\n")
 	hb.WriteString(hookLockSrc)
 	hb.WriteString("// Hook is called before every statement of the instrumented module when non-nil.\n")
 	hb.WriteString("var Hook func(site int)\n\n")
@@ -501,6 +505,7 @@ func RunOpts(srcDir, dstDir string, rewrite bool) (*Descriptor, error) {
 	hb.WriteString("// ResetGates opens every gate (called by the harness between runs).\n//\n//go:norace\nfunc ResetGates() {\n\tfor i := range gates {\n\t\tgates[i].depth = 0\n\t}\n}\n\n")
 	hb.WriteString("// Active is set by the harness around the concurrent phase of a run.\nvar Active bool\n\n// NoPreempt is kept for compatibility (always 0).\nvar NoPreempt int\n\n")
 	hb.WriteString("// SiteInfo describes one yield site.\ntype SiteInfo struct {\n\tFile string\n\tLine int\n\tFunc string\n\tFuncFirst bool\n\tGlobal bool\n\tHot bool\n}\n\n")
+	fmt.Fprintf(&hb, "// OwnLockTypes: types of the module that declare Lock / RLock / TryLock methods themselves.\nvar OwnLockTypes = %#v\n\n", append([]string{}, d.OwnLockTypes...))
 	fmt.Fprintf(&hb, "// ExactLocks: the module declares Lock methods of its own; only receivers that are exactly a sync mutex are acquired cooperatively.\nconst ExactLocks = %v\n\n", len(d.OwnLockMethods) > 0)
 	fmt.Fprintf(&hb, "// ClockSites is the number of clock expressions of the module redirected to the simulated clock.\nconst ClockSites = %d\n\n", d.ClockReads)
 	fmt.Fprintf(&hb, "// OpOnly is set when the module contains blocking synchronisation of its own.\nconst OpOnly = %v\n\n", d.OpOnly)
@@ -563,6 +568,10 @@ func tryFunc(p interface{}, read bool) func() bool {
 		if *v == nil {
 			return nil
 		}
+		if rv := reflect.ValueOf(*v); rv.Kind() == reflect.Ptr && rv.Type().String() == "*sync.rlocker" {
+			// (*sync.RWMutex).RLocker(): the read side of an RWMutex behind the Locker interface
+			return (*sync.RWMutex)(unsafe.Pointer(rv.Pointer())).TryRLock
+		}
 		if ExactLocks {
 			switch (*v).(type) {
 			case *sync.Mutex, *sync.RWMutex:
@@ -572,10 +581,58 @@ func tryFunc(p interface{}, read bool) func() bool {
 		}
 		return tryFuncOf(*v, read)
 	}
-	if ExactLocks {
-		return nil // some other type with a Lock method: it may do more than lock
+	// x is a struct that embeds a sync mutex (s.Lock() with s a T or a *T): acquire it through the promoted TryLock,
+	// unless the module gives that type a Lock method of its own, which may do more than lock
+	v := reflect.ValueOf(p)
+	if v.Kind() != reflect.Ptr || v.IsNil() {
+		return nil
 	}
-	return tryFuncOf(p, read)
+	if e := v.Elem(); e.Kind() == reflect.Ptr {
+		if e.IsNil() {
+			return nil
+		}
+		v = e
+	}
+	t := v.Type().Elem()
+	if t.Kind() != reflect.Struct {
+		return nil
+	}
+	base := t.Name()
+	if i := indexByte(base, '['); i >= 0 {
+		base = base[:i] // instantiated generic type
+	}
+	for _, n := range OwnLockTypes {
+		if n == base {
+			return nil
+		}
+	}
+	embeds := false
+	for i := 0; i < t.NumField(); i++ {
+		if f := t.Field(i); f.Anonymous {
+			switch f.Type {
+			case mutexType, rwMutexType, reflect.PtrTo(mutexType), reflect.PtrTo(rwMutexType):
+				embeds = true
+			}
+		}
+	}
+	if !embeds {
+		return nil
+	}
+	return tryFuncOf(v.Interface(), read)
+}
+
+var (
+	mutexType   = reflect.TypeOf(sync.Mutex{})
+	rwMutexType = reflect.TypeOf(sync.RWMutex{})
+)
+
+func indexByte(s string, c byte) int {
+	for i := 0; i < len(s); i++ {
+		if s[i] == c {
+			return i
+		}
+	}
+	return -1
 }
 
 func tryFuncOf(p interface{}, read bool) func() bool {
@@ -660,6 +717,23 @@ func isErrSentinel(vs *ast.ValueSpec, i int) bool {
 	}
 	id, ok := sel.X.(*ast.Ident)
 	return ok && id.Name == "errors" && sel.Sel.Name == "New"
+}
+
+// recvTypeName returns the name of a method receiver's type.
+func recvTypeName(e ast.Expr) string {
+	switch x := e.(type) {
+	case *ast.Ident:
+		return x.Name
+	case *ast.StarExpr:
+		return recvTypeName(x.X)
+	case *ast.ParenExpr:
+		return recvTypeName(x.X)
+	case *ast.IndexExpr:
+		return recvTypeName(x.X)
+	case *ast.IndexListExpr:
+		return recvTypeName(x.X)
+	}
+	return ""
 }
 
 // isGosched reports whether e is the call runtime.Gosched().
